@@ -45,6 +45,8 @@ def _is_resolver_helper(f: FuncInfo) -> bool:
     package (helpers move between the class and module level)."""
     if isinstance(f.node, ast.Lambda):
         return False
+    if f.parent is not None:
+        return _is_resolver_helper(f.parent)  # a local function of such a helper
     if f.cls is not None and f.cls.qual == RESOLVER:
         return True
     return f.module.name.startswith("flowmark.file_resolver") and f.name.startswith("_") and not f.name.startswith("__")
@@ -88,6 +90,36 @@ def filter_kinds(ctx: Ctx, fi: FuncInfo, expr: ast.AST, node: Node, depth: int =
                 recv = f.value
                 if isinstance(recv, ast.Name) and recv.id in comp_bind:
                     recv = comp_bind[recv.id]  # `any(spec.match_file(x) for spec in specs)`: classify by the iterable
+                # ... and the iterable by what it re-packages: specs = [s for s in (self._exclude_spec, tool_ignore) if s], also
+                # when that local belongs to the enclosing function (the test sits in a nested helper)
+                rfi, rnode = fi, node
+                for _step in range(4):
+                    if not isinstance(recv, ast.Name):
+                        break
+                    rflow_ = prog.flow(rfi)
+                    ds_ = rflow_.reaching(rnode, recv.id) if recv.id in rflow_.defs_of_var else []
+                    if not ds_ and rfi.parent is not None and recv.id in prog.flow(rfi.parent).defs_of_var:
+                        pf_ = prog.flow(rfi.parent)
+                        ds_ = [d for d in pf_.defs if d.var == recv.id]
+                        rfi = rfi.parent
+                    if len(ds_) != 1 or ds_[0].kind != "assign" or ds_[0].value is None:
+                        break
+                    v_ = ds_[0].value
+                    rnode = ds_[0].node
+                    if isinstance(v_, (ast.ListComp, ast.GeneratorExp)) and len(v_.generators) == 1 and isinstance(v_.elt, ast.Name) \
+                            and isinstance(v_.generators[0].target, ast.Name) and v_.elt.id == v_.generators[0].target.id:
+                        recv = v_.generators[0].iter
+                    elif isinstance(v_, ast.Call) and isinstance(v_.func, ast.Name) and v_.func.id in ("list", "tuple") and len(v_.args) == 1:
+                        recv = v_.args[0]
+                    elif isinstance(v_, ast.Call) and isinstance(v_.func, ast.Name) and v_.func.id == "filter" and len(v_.args) == 2:
+                        recv = v_.args[1]
+                    elif isinstance(v_, (ast.Tuple, ast.List)):
+                        recv = v_
+                    else:
+                        break
+                if rfi is not fi:
+                    kinds |= _classify_spec_elements(ctx, rfi, recv, rnode, depth)
+                    continue
                 k = chain_key(recv) or ""
                 if k and _attr_kind(ctx, k) in ("include", "exclude"):
                     kinds.add(_attr_kind(ctx, k))
@@ -135,7 +167,40 @@ def filter_kinds(ctx: Ctx, fi: FuncInfo, expr: ast.AST, node: Node, depth: int =
                     for n2 in cflow.cfg.nodes:
                         for ex in cflow.node_exprs(n2):
                             kinds |= filter_kinds(ctx, callee, ex, n2, depth + 1) - {"isfile"}
+        elif isinstance(f, ast.Name):
+            if True:
+                t = prog.resolve_call(fi, c)
+                if isinstance(t, list) and depth < 3 and _is_resolver_helper(t[0]):
+                    callee = t[0]
+                    if any(isinstance(x, ast.Attribute) and x.attr == "files_max_size" for x in walk_no_nested(callee.node)):
+                        kinds.add("size")
+                    cflow = prog.flow(callee)
+                    for n2 in cflow.cfg.nodes:
+                        for ex in cflow.node_exprs(n2):
+                            kinds |= filter_kinds(ctx, callee, ex, n2, depth + 1) - {"isfile"}
     return kinds
+
+
+def _classify_spec_elements(ctx: Ctx, fi: FuncInfo, recv: ast.AST, node: Node, depth: int) -> set[str]:
+    """kinds of the specs in a literal tuple / list (or of one spec expression), read in function `fi`"""
+    out: set[str] = set()
+    for el in (recv.elts if isinstance(recv, (ast.Tuple, ast.List)) else [recv]):
+        k = chain_key(el) or ""
+        if k and _attr_kind(ctx, k) in ("include", "exclude", "gitignore", "toolignore"):
+            out.add(_attr_kind(ctx, k))
+            continue
+        got = _spec_kinds_from_callers(ctx, fi, el, node, depth)
+        if not got:
+            sl = ctx.prog.slice(fi, el, node)
+            lk = _loader_kinds(ctx, sl.callees())
+            ak = {_attr_kind(ctx, a) for a in sl.attrs()}
+            for kind in ("gitignore", "toolignore", "exclude", "include"):
+                if kind in lk or kind in ak:
+                    got.add(kind)
+            if "tool_ignore" in sl.params():
+                got.add("toolignore")
+        out |= got or {"spec?"}
+    return out
 
 
 def _spec_kinds_from_callers(ctx: Ctx, fi: FuncInfo, recv: ast.AST, node: Node, depth: int) -> set[str]:
